@@ -303,6 +303,9 @@ func (w *world) exchange(e exch, skipLe bool) (msg string, sent []byte) {
 	if len(out.Data) > 0 && len(w.kept) < 64 {
 		w.kept = append(w.kept, keptResult{w.lk.sent, out.Data, bytes.Clone(rdata)})
 	}
+	if w.nfc.SM() == nil {
+		return fmt.Sprintf("after a genuine protected response with status %04x the session has no secure messaging any more: the next command would leave unprotected", e.RSW), sent
+	}
 	if !bytes.Equal(w.nfc.SM().SSC(), w.chip.SSC) {
 		return fmt.Sprintf("counter after the exchange is %x, the chip has %x", w.nfc.SM().SSC(), w.chip.SSC), sent
 	}
